@@ -40,7 +40,8 @@ func TestC06Counts(t *testing.T) {
 		{ref.Prim("bytes"), []spec.TypeSpec{spec.T("bytes")}, ref.Datum{K: "bytes", S: []byte{1, 2, 3}}},
 		{ref.Schema{Kind: "fixed", Name: "f4", Size: 4}, []spec.TypeSpec{spec.BArray(4)}, ref.Datum{K: "fixed", S: []byte{9, 8, 7, 6}}},
 		{ref.Schema{Kind: "fixed", Name: "f16", Size: 16}, []spec.TypeSpec{spec.BArray(16)}, ref.Datum{K: "fixed", S: make([]byte, 16)}},
-		{inner, []spec.TypeSpec{spec.Struct(spec.FieldSpec{Go: "X", T: spec.T("int64")}), spec.Ptr(spec.Struct(spec.FieldSpec{Go: "X", T: spec.T("int64")}))}, ref.Datum{K: "record", Fields: []ref.Datum{ref.Long(3)}}},
+		{inner, []spec.TypeSpec{spec.Struct(spec.FieldSpec{Go: "X", T: spec.T("int64")}), spec.Ptr(spec.Struct(spec.FieldSpec{Go: "X", T: spec.T("int64")})),
+			spec.Struct(), spec.Struct(spec.FieldSpec{Go: "Other", T: spec.T("int16")})}, ref.Datum{K: "record", Fields: []ref.Datum{ref.Long(3)}}}, // the item record projected away (a zero-size element), or down to a field it lacks
 		{ref.Nullable(ref.Prim("long")), []spec.TypeSpec{spec.Ptr(spec.T("int64")), spec.T("nullInt")}, ref.Union(1, ref.Long(4))},
 	}
 	n := 0
